@@ -439,6 +439,7 @@ func (c *Ctx) Assert(cond *Term, msg string) {
 			v.Trail = append(v.Trail, d.Cur)
 		}
 		v.Inputs = c.concretize(m)
+		v.Inputs["@choices"] = append([]int{}, c.hchoices...)
 		c.viol = append(c.viol, v)
 		panic(pathAbort{"violation"})
 	}
